@@ -20,6 +20,9 @@ var ctxRefs = []string{
 	"@trigger", "@trigger.type", "@trigger.params", "@trigger.params.x", "@trigger.params.flag", "@trigger.params.nested.ok", "@trigger.keyword", "@trigger.user", "@trigger.origin",
 	"@resume", "@resume.type", "@resume.dial", "@globals.org_name", "@globals.limit", "@globals.missing", "@globals",
 	"@node.visit_count", "@node.uuid", "@ticket", "@ticket.topic", "@ticket.assignee",
+	// deprecated context values (each access logs a warning), also twice in a row
+	"@child.run.status", "@results.color.values", "@results.answer.categories", "@results.color.categories_localized",
+	"@child.run.status then @child.run.status", "@results.color.values / @results.color.values", "@results.answer.categories @results.answer.categories",
 	// identifiers are case-insensitive
 	"@GLOBALS.Org_Name", "@Fields.Age", "@(CONTACT.FIELDS.gender)", "@Globals.LIMIT", "@(Upper(Contact.Name))", "@FIELDS.joined", "@Contact.Fields.Nick", "@Parent.Fields.SCORE", "@Results.Color",
 }
@@ -46,6 +49,7 @@ var exprPool = []string{
 var urnRefs = []string{"@contact.urn", "@urns.tel", "@contact", "@contact.urns", "@(format_urn(contact.urn))", "@input.urn", "@parent.urns.tel", "@child.urns", "@urns",
 	"@(urn_parts(contact.urn).path)", "@(default(urns.facebook, urns.telegram))", "@run", "@(json(contact.urns))", "@parent.contact.urn", "@(contact.urns[0])"}
 var parentRefs = []string{"@parent", "@parent.results.color", "@parent.contact.name", "@parent.fields.age", "@parent.status", "@parent.results", "@parent.run.uuid", "@parent.flow.name", "@(json(parent))", "@parent.results.answer.category"}
+
 // ExprPool returns the generator's stock of expressions (for batteries that evaluate all of them).
 func ExprPool() []string { return exprPool }
 
@@ -134,6 +138,9 @@ func (g *G) genAction(f *FlowSpec, nd *nodeDraft, loc J) J {
 		"call_resthook", "call_classifier", "transfer_airtime", "start_session", "send_broadcast", "add_input_labels", "request_optin",
 	}
 	kind := kinds[t.Pick("actionkind", len(kinds))]
+	if g.P.RichLocalization && t.Chance("language_action", 1, 10) {
+		kind = "set_contact_language" // multilingual workspaces let people switch language in the middle of a conversation
+	}
 	if g.P.ListHeavy && t.Chance("list_action", 1, 3) {
 		kind = []string{"send_broadcast", "start_session", "send_broadcast", "add_contact_groups", "add_input_labels", "send_email"}[t.Pick("list_action_kind", 6)]
 	}
